@@ -967,8 +967,8 @@ func (x *Exec) specCall(e *ast.CallExpr, sc *SpecScope, st *State) *Value {
 	}
 	// ghost field read
 	if gs, ok := x.eng.pre.Ghost[name]; ok {
-		ref := arg(0).term()
-		return &Value{Tm: Select(st.hget("G!"+name, ArrS(IntS, gs)), ref)}
+		key, ref := ghostLoc(name, arg(0))
+		return &Value{Tm: Select(st.hget(key, ArrS(IntS, gs)), ref)}
 	}
 	// prelude function
 	if fn, ok := x.eng.pre.Fns[name]; ok {
@@ -1082,8 +1082,8 @@ func (x *Exec) specLocs(src string, sc *SpecScope, st *State, c *Contract) []*sp
 	if ce, ok := e.(*ast.CallExpr); ok {
 		if id, ok := ce.Fun.(*ast.Ident); ok {
 			if gs, isGhost := x.eng.pre.Ghost[id.Name]; isGhost {
-				ref := x.evalSpec(ce.Args[0], sc, st).term()
-				return []*specLoc{{key: "G!" + id.Name, ref: ref, ghost: gs}}
+				key, ref := ghostLoc(id.Name, x.evalSpec(ce.Args[0], sc, st))
+				return []*specLoc{{key: key, ref: ref, ghost: gs}}
 			}
 			switch id.Name {
 			case "allof":
@@ -1163,3 +1163,12 @@ func (x *Exec) specLocs(src string, sc *SpecScope, st *State, c *Contract) []*sp
 }
 
 var _ = constant.MakeBool
+
+// ghostLoc: the heap map and index of ghost field `name` of the object v designates. An object
+// embedded by value in a struct (v = &x.f) has its own ghost map per (struct type, field path).
+func ghostLoc(name string, v *Value) (string, *Term) {
+	if v.P != nil && !v.P.simple() && v.P.Idx == nil && len(v.P.EPath) == 0 {
+		return "G!" + name + "@" + v.P.OwnerKey + "." + strings.Join(v.P.Path, "."), v.P.Base
+	}
+	return "G!" + name, v.term()
+}
